@@ -35,6 +35,8 @@ def vec(c, kind, path, clause, timeout=1800):
 
 class Obligations:
     """Apalache obligations on one module, run in the background (a few at a time)."""
+    _lock = threading.Lock()
+    _n = 0
 
     def __init__(self, c, family, module, obligations, par=3, timeout=900):
         # obligations: list of (name, init, inv, expect_holds)
@@ -51,7 +53,9 @@ class Obligations:
         name, init, inv, expect = o[:4]
         extra = list(o[4]) if len(o) > 4 else []
         mod = o[5] if len(o) > 5 else self.module
-        outdir = self.c.path("apa-%s-%d" % (mod, i))
+        with Obligations._lock:
+            Obligations._n += 1
+            outdir = self.c.path("apa-%s-%d" % (mod, Obligations._n))
         cmd = ["timeout", str(self.timeout), "apalache-mc", "check", "--out-dir=" + outdir, "--init=" + init, "--next=Next",
                "--inv=" + inv, "--length=0"] + extra + [mod + ".tla"]
         t = time.time()
